@@ -436,6 +436,7 @@ struct ModelSys {
   enum Alpha { CORE = 0, FULL = 1, JSON = 2 };
   int alpha{ FULL };
   bool jsonMode{ false };
+  bool requery_parent{ false };   // stale mode: state battery on the parent state of the same object before the last operation
   std::vector<int> seedList;   // seed codes: kind + 10 * uid policy
   bool dump{ getenv("VERIF_DUMP") != nullptr };
   std::map<std::string, int> verdictCache;   // history prefix -> 0 clean / 1 stale / 2 not judged (attribution only)
@@ -780,7 +781,7 @@ int main(int argc, char** argv) {
   Options opt = parse_args(argc, argv);
   const double t0 = now_s();
   Result res; res.harness = "h_model"; res.mode = opt.mode; res.tier = opt.tier;
-  ModelSys sys;
+  ModelSys sys; sys.requery_parent = opt.mode == "stale" && opt.num("requery", 1) != 0;
   sys.executeAbortingOps = opt.num("execute-aborting-ops", 0) != 0;
   // phase A: wide alphabet, all seeds, depth dA; phase B: core alphabet, deeper, fewer seeds (same op encoding, same seed table)
   // seed table (indices are stable across tiers): M0 M1 M2 with ascending uids, then the same with descending uids
